@@ -488,6 +488,19 @@ class Adapter:
         o = self.obj('B', ev['k'])
         z = ev['x']
         val = self.obj('A', z) if z else None
+        if ev['y'] == 2:          # one-to-one, from A's end
+            if val is not None:
+                if self.rng.randrange(2):
+                    val.b = o
+                else:
+                    val.set(b=o)
+            else:
+                old = o.a
+                if old is None:
+                    raise Mismatch('ends', 'B[%d].a is None although the specification says it refers to an object' % ev['k'])
+                self.reg('A', old.id, old)
+                old.b = None
+            return
         form = self.rng.randrange(3)
         if form == 0 or val is None:
             o.a = val
@@ -575,6 +588,17 @@ class Adapter:
             a.set(bs=set(items))
         else:
             a.bs = tuple(reversed(items))
+
+    def do_CollSetB(self, ev):
+        b = self.obj('B', ev['k'])
+        items = [self.obj('A', a) for a in (1, 2) if ev['x'] & a]
+        form = self.rng.randrange(3)
+        if not items and form == 0:
+            b.as_.clear()
+        elif form == 1:
+            b.set(as_=items)
+        else:
+            b.as_ = items
 
     def do_Delete(self, ev):
         o = self.obj(ev['e'], ev['k'])
@@ -932,7 +956,7 @@ class Driver:
                         ids_a.append(y)
                 elif op in ('SetV', 'GetV', 'Coll', 'LColl', 'CollClear', 'CollSet'):
                     ids_a.append(kk)
-                elif op in ('SetU', 'GetU', 'GetRef', 'CollB'):
+                elif op in ('SetU', 'GetU', 'GetRef', 'CollB', 'CollSetB'):
                     ids_b.append(kk)
                 elif op == 'SetRef':
                     ids_b.append(kk)
@@ -983,7 +1007,7 @@ class Driver:
                 ids_a.add(y)
         elif op in ('SetV', 'Coll', 'LColl', 'CollClear', 'CollSet', 'GetV'):
             ids_a.add(kk)
-        elif op in ('SetU', 'GetU', 'GetRef', 'CollB'):
+        elif op in ('SetU', 'GetU', 'GetRef', 'CollB', 'CollSetB'):
             ids_b.add(kk)
         elif op == 'SetRef':
             ids_b.add(kk)
@@ -997,7 +1021,7 @@ class Driver:
         elif op in ('Delete', 'BulkDelete'):
             (ids_a if e == 'A' else ids_b).add(kk)
         liveA, liveB = set(view['liveA']), set(view['liveB'])
-        if op in ('Delete', 'BulkDelete', 'SetRef', 'SetMany', 'CollClear', 'CollSet', 'CollRemove', 'Create'):
+        if op in ('Delete', 'BulkDelete', 'SetRef', 'SetMany', 'CollClear', 'CollSet', 'CollSetB', 'CollRemove', 'Create'):
             # relatives may be affected (cascade, unlinking, one-to-one rivals)
             ids_a |= liveA
             ids_b |= liveB
